@@ -182,20 +182,30 @@ func (s *LinearState) Add(ctx *Context, id string, x Map) (string, error) {
 		return id, err
 	}
 
+	// The lock covers the store, too.  Otherwise two concurrent
+	// writers of one id could reach storage and memory in opposite
+	// orders, and storage would keep a different fact than memory.
+	s.slock(ctx, false)
+
 	pair := &Pair{[]byte(id), bs}
 	if err = s.store.Add(ctx, s.Name, pair); err != nil {
+		s.sunlock(ctx, false)
 		return id, err
 	}
 
 	if s.addHook != nil {
-		if err := s.addHook(ctx, s, id, m, ctx.GetLoc().loading); err != nil {
+		// The hook might want to look at the state, which we
+		// have locked.
+		s.withPrivilege(ctx)
+		err := s.addHook(ctx, s, id, m, ctx.GetLoc().loading)
+		s.withoutPrivilege(ctx)
+		if err != nil {
+			s.sunlock(ctx, false)
 			Log(ERROR, ctx, "LinearState.Add", "state", s.Name, "error", err, "when", "addHook", "id", id)
 			return "", err
 		}
 	}
 
-	// Maybe protect the store (above), too.
-	s.slock(ctx, false)
 	if _, isRule := m["rule"]; isRule {
 		if _, have := s.Facts[id]; have {
 			// Hope we're really replacing a rule.
@@ -229,16 +239,16 @@ func (s *LinearState) Rem(ctx *Context, id string) (bool, error) {
 
 func (s *LinearState) rem(ctx *Context, id string, lock bool) (bool, error) {
 	Log(DEBUG, ctx, "LinearState.rem", "id", id)
+	// The lock covers the store, too (see Add).
+	if lock {
+		s.slock(ctx, false)
+		defer s.sunlock(ctx, false)
+	}
 	_, err := s.store.Remove(ctx, s.Name, []byte(id))
 	// ToDo: Consider what's returned.
 	if err != nil {
 		Log(ERROR, ctx, "LinearState.rem", "id", id, "error", err)
 		return false, err
-	}
-	// Maybe protect the store (above), too.
-	if lock {
-		s.slock(ctx, false)
-		defer s.sunlock(ctx, false)
 	}
 	// (The rule cache is guarded by the state's lock.)
 	delete(s.cachedRules, id)
